@@ -30,7 +30,7 @@
 #define SPECMAX ((N + 1) / 2 + 1) /* dimensions a channel spec can have in N bytes */
 
 #define VIN_FIELDS(F, A) \
-    A(uint8_t, sel, N) \
+    A(uint8_t, sel, (N < 8 ? 8 : N)) \
     F(uint8_t, len) \
     F(uint8_t, index) \
     F(uint8_t, cap) \
@@ -44,7 +44,12 @@ static int at(int i) {
 }
 #include "ref488.h"
 
+#ifdef ALPH8
+/* reduced alphabet for longer channel lists: one digit of each kind, the list punctuation, a sign and a foreign letter */
+static const char alphabet[16] = {'1', '2', '!', ':', ',', '@', '-', 'A', '1', '2', '!', ':', ',', '@', '-', 'A'};
+#else
 static const char alphabet[16] = {'0', '1', '5', '9', '-', '+', '.', ':', ',', '!', '@', ' ', '\t', 'E', 'e', 'A'};
+#endif
 
 static scpi_t ctx;
 static scpi_error_t queue[4];
@@ -83,10 +88,29 @@ void harness(void) {
     scpi_expr_result_t res;
     scpi_bool_t isRange = 2;
     VIN_INIT();
+#ifdef SHAPE_D1
+    /* shaped channel-list body: '@' <SHAPE_D1 single-digit dimensions joined by '!'> [ ':' <SHAPE_D2 dimensions> ] [ ',' digit ]
+     * with symbolic digits - reaches multi-dimensional ranges that the free-text bound cannot */
+    {
+        int k2, q = 0;
+        char body[N];
+        body[q++] = '@';
+        for (k2 = 0; k2 < SHAPE_D1; k2++) { if (k2) body[q++] = '!'; body[q++] = (char) ('0' + vin.sel[k2] % 10); }
+        if (SHAPE_D2 > 0) {
+            body[q++] = ':';
+            for (k2 = 0; k2 < SHAPE_D2; k2++) { if (k2) body[q++] = '!'; body[q++] = (char) ('0' + vin.sel[3 + k2] % 10); }
+        }
+        if (vin.len & 1) { body[q++] = ','; body[q++] = (char) ('0' + vin.sel[6] % 10); }
+        n = q;
+        buf[0] = '(';
+        for (i = 0; i < N; i++) buf[1 + i] = i < n ? body[i] : ')';
+    }
+#else
     n = vin.len;
     VASSUME(n <= N);
     buf[0] = '(';
     for (i = 0; i < N; i++) buf[1 + i] = i < n ? alphabet[vin.sel[i] & 15] : ')';
+#endif
     buf[1 + n] = ')';
     buf[2 + n] = 0;
     if (n < N) buf[N + 2] = 0;
@@ -205,6 +229,38 @@ void harness(void) {
             VASSERT(ctx.error_queue.count == 0, "C19 numeric list: no error queued unless ERROR is reported");
         }
         if (res == SCPI_EXPR_OK && range) VWITNESS("range");
+    }
+#elif KIND == 4
+    {
+        /* shaped channel entry (see SHAPE_D1/SHAPE_D2 above) with a shape-specific oracle: entry 0 is OK exactly when it is
+         * a single channel or a range whose two ends have the same number of dimensions, with the digits as written and
+         * the dimension count; otherwise ERROR with -170.  Entry 1 is the optional trailing single channel. */
+        int32_t rawf[MAXCAP], rawt[MAXCAP];
+        int32_t * vfrom = rawf + (MAXCAP - cap);
+        int32_t * vto = rawt + (MAXCAP - cap);
+        size_t dims = 99;
+        int has_tail = vin.len & 1, idx = vin.index & 1, k2;
+        for (i = 0; i < MAXCAP; i++) { rawf[i] = vin.init[i]; rawt[i] = vin.init[MAXCAP + i]; }
+        res = SCPI_ExprChannelListEntry(&ctx, &param, idx, &isRange, cap ? vfrom : NULL, cap ? vto : NULL, (size_t) cap, &dims);
+        if (SHAPE_D2 > 0 && SHAPE_D1 != SHAPE_D2) {
+            VASSERT(res == SCPI_EXPR_ERROR, "C19 channel list: a range whose ends differ in dimension count is malformed: ERROR");
+            VASSERT(ctx.error_queue.count >= 1 && queue[0].error_code == SCPI_ERROR_EXPRESSION_PARSING_ERROR, "C19 channel list: ERROR comes with -170 queued");
+        } else if (idx == 0) {
+            VASSERT(res == SCPI_EXPR_OK, "C19 channel list: a well-formed entry is reported OK");
+            VASSERT((int) dims == SHAPE_D1, "C19 channel list: dimension count as written");
+            VASSERT((isRange ? 1 : 0) == (SHAPE_D2 > 0 ? 1 : 0), "C19 channel list: single channel versus range as written");
+            for (k2 = 0; k2 < MAXCAP; k2++) {
+                if (k2 < cap && k2 < SHAPE_D1) {
+                    VASSERT(vfrom[k2] == 1000 + 1 + 2 * k2, "C19 channel list: dimension values are the literals as written");
+                    if (SHAPE_D2 > 0) VASSERT(vto[k2] == 1000 + 2 * SHAPE_D1 + 1 + 2 * k2, "C19 channel list: range-end dimension values are the literals as written");
+                }
+            }
+            VASSERT(ctx.error_queue.count == 0, "C19 channel list: no error queued unless ERROR is reported");
+        } else {
+            VASSERT(res == (has_tail ? SCPI_EXPR_OK : SCPI_EXPR_NO_MORE), "C19 channel list: entry beyond the list is NO_MORE, the trailing channel is OK");
+            if (has_tail) VASSERT(dims == 1 && !isRange, "C19 channel list: trailing single channel as written");
+        }
+        for (i = 0; i < MAXCAP; i++) if (i < MAXCAP - cap) VASSERT(rawf[i] == vin.init[i] && rawt[i] == vin.init[MAXCAP + i], "C19 channel list: nothing stored outside the announced capacity");
     }
 #else
     {
